@@ -169,8 +169,12 @@ def judge_family(ctx, t, src, tgt, opts, where):
             tl = np.asarray(given.trilist)          # the triangles of the source as the caller handed it over (a mesh keeps its own)
         rng = np.random.default_rng(9)
         # affine inside each triangle: the image of a barycentric combination is the combination of the vertex images
-        k = min(len(tl), 12)
-        sel = tl[rng.choice(len(tl), k, replace=False)]
+        # (not inside slivers - triangles thousands of times longer than wide -, where barycentric weights carry few digits)
+        e1_, e2_ = src[tl[:, 1]] - src[tl[:, 0]], src[tl[:, 2]] - src[tl[:, 0]]
+        q_ = np.abs(e1_[:, 0] * e2_[:, 1] - e1_[:, 1] * e2_[:, 0]) / np.maximum(np.maximum((e1_ ** 2).sum(1), (e2_ ** 2).sum(1)), ((e2_ - e1_) ** 2).sum(1))
+        tlq = tl[q_ > 1e-4] if (q_ > 1e-4).any() else tl
+        k = min(len(tlq), 12)
+        sel = tlq[rng.choice(len(tlq), k, replace=False)]
         w = rng.dirichlet(np.ones(3), size=k) * 0.76 + 0.08
         p = np.einsum("kj,kjd->kd", w, src[sel])
         expect = np.einsum("kj,kjd->kd", w, tgt[sel])
